@@ -233,13 +233,78 @@ def schemas(prog, ctx):
 
     def scalar(name, fn, want, inline=()):
         try:
-            o, sx = result_of(prog, fn, inline)
+            try:
+                o, sx = result_of(prog, fn, inline)
+            except Undecided:
+                if multi_path_scalar(name, fn, want, inline):
+                    return
+                raise
             got = o.value
             if isinstance(got, Arr):
                 raise Undecided('scalar expected')
             ctx.decide(R, name, fn, same(got, want), 'returns %s' % got, 'expected %s, found %s' % (want, got), form=str(got))
         except Undecided as e:
             ctx.undecided(R, name, fn, str(e))
+
+    def multi_path_scalar(name, fn, want, inline):
+        """A scalar routine with several returning paths (shortcuts): the path conditions and returned terms are evaluated on
+        small concrete objects (1x1, 1x2, 2x2 / lengths 1..2, entries from {-1, 0, 2}); on every sample exactly one path must
+        apply and its value must equal the definition.  Decides only when every term evaluates to a number."""
+        import itertools
+        sxm = Symx(prog, fn, inline=inline)
+        outs = [o_ for o_ in sxm.run() if o_.kind != 'exit']
+        if len(outs) < 2 or any(o_.kind != 'return' or not isinstance(o_.value, sp.Basic) for o_ in outs):
+            return False
+        AU = sp.core.function.AppliedUndef
+        is_mat = fn.cls == L + 'Matrix'
+
+        def concretise(t, shape, entries):
+            r_, c_ = shape
+            sub = {rows: r_, cols: c_, dim: r_, Symbol('this.rows', integer=True): r_, Symbol('this.columns', integer=True): c_}
+            t = t.subs(sub)
+            for _ in range(6):
+                reds = [x_ for x_ in t.atoms(AU) if x_.func.__name__ in ('MAXRED', 'MINRED')]
+                if not reds:
+                    break
+                # innermost first
+                x_ = sorted(reds, key=lambda y_: len(str(y_)))[0]
+                g_, v_, lo_, hi_ = x_.args
+                lo_i, hi_i = int(sp.simplify(lo_)), int(sp.simplify(hi_))
+                vals = [g_.xreplace({v_: sp.Integer(k_)}) for k_ in range(lo_i, hi_i + 1)]
+                t = t.xreplace({x_: (sp.Max if x_.func.__name__ == 'MAXRED' else sp.Min)(*vals) if vals else (-sp.oo if x_.func.__name__ == 'MAXRED' else sp.oo)})
+            t = t.doit()
+            t = t.replace(lambda e_: isinstance(e_, AU) and e_.func.__name__ == 'this.components' and all(a_.is_Integer for a_ in e_.args),
+                          lambda e_: sp.Integer(entries[tuple(int(a_) for a_ in e_.args)]) if tuple(int(a_) for a_ in e_.args) in entries else e_)
+            return sp.simplify(t)
+        bad, n = [], 0
+        shapes = [(1, 1), (1, 2), (2, 2)] if is_mat else [(1, 1), (2, 1)]
+        try:
+            for shp in shapes:
+                cells = [(i_, j_) for i_ in range(shp[0]) for j_ in range(shp[1])] if is_mat else [(i_,) for i_ in range(shp[0])]
+                for vals in itertools.product((-1, 0, 2), repeat=len(cells)):
+                    ent = dict(zip(cells, vals))
+                    w_ = concretise(want, shp, ent)
+                    hits = []
+                    for o_ in outs:
+                        c_ = concretise(o_.cond, shp, ent) if isinstance(o_.cond, sp.Basic) else o_.cond
+                        if c_ in (sp.true, True):
+                            hits.append(o_)
+                        elif c_ not in (sp.false, False):
+                            return False
+                    n += 1
+                    if len(hits) != 1:
+                        bad.append('%s: %d paths apply' % (ent, len(hits)))
+                        continue
+                    g_ = concretise(hits[0].value, shp, ent)
+                    if g_.free_symbols or g_.atoms(AU) or w_.free_symbols or w_.atoms(AU):
+                        return False
+                    if sp.simplify(g_ - w_) != 0:
+                        bad.append('entries %s: returns %s, definition gives %s' % ({str(k_): v_ for k_, v_ in ent.items()}, g_, w_))
+        except (TypeError, ValueError, Undecided):
+            return False
+        ctx.decide(R, name, fn, not bad, 'all %d returning paths agree with the definition on %d small concrete objects' % (len(outs), n),
+                   'a returning path disagrees with the definition: %s' % bad[:2], witness={'samples': bad[:3]} if bad else None)
+        return True
 
     # matrices, element-wise
     elem2('Matrix::Plus', mfn('Plus'), AC(a, b) + M(a, b), (rows, None))
